@@ -213,7 +213,7 @@ DEFAULT_KNOBS = dict(
     orphans_return=True, txindex=True, urls=1, resegment=True, max_hist_row=None,
     services='tcp://:50001,rpc://:8000', peer_discovery='off', tor_proxy_port=None, session_timeout=10_000_000,
     request_timeout=30, cost_limits=(0, 0), extra_env=None, stall_boost=None, polling_delay=None,
-    refresh_secs=None, protos=None, stall_max=None,
+    refresh_secs=None, protos=None, stall_max=None, file_size=None,
 )
 
 
